@@ -42,7 +42,7 @@ class Monitor:
         self.learning = False
         repo = os.path.realpath(os.environ.get('VERIF_REPO', '/repo'))
         self.yaml_dir = os.path.join(repo, 'lib', 'yaml') + os.sep
-        import vf_canary
+        import vf_canary, vf_warm_pkg
         self.canary = vf_canary
         self.mods_before = None
 
@@ -88,7 +88,7 @@ class Monitor:
         new = set(sys.modules) - self.mods_before
         if new:
             ev.append(('sys.modules-grew', tuple(sorted(new))[:5]))
-        if getattr(builtins, '_vf_canary_cold_imported', False) or 'vf_canary_cold' in sys.modules or any(m.startswith('vf_cold_pkg') for m in sys.modules):
+        if getattr(builtins, '_vf_canary_cold_imported', False) or 'vf_canary_cold' in sys.modules or any(m.startswith('vf_cold_pkg') or m == 'vf_warm_pkg.cold_sub' for m in sys.modules):
             ev.append(('cold-module-imported',))
         return ev
 
